@@ -68,7 +68,13 @@ impl<T: Float> LineSearchMethod<T> for Backtracking<T> {
 
         while fx1 > f0 + self.c1 * a2 * df0 {
             if iteration > self.max_iterations {
-                panic!("Linesearch failed to converge, reached maximum iterations.");
+                // no step satisfies the sufficient-decrease condition (e.g. the objective has no minimiser and the
+                // iterates have run into the limits of floating point): take no step; callers see the unchanged
+                // iterate as convergence instead of the whole fit panicking
+                return LineSearchResult {
+                    alpha: T::zero(),
+                    f_x: f0,
+                };
             }
 
             let a_tmp;
